@@ -748,12 +748,13 @@ func registerIntrinsics(m *Machine) {
 		avail := Bin("bvsub", r.L, r.pos)
 		n := Ite(Cmp("bvult", avail, p.Len), avail, p.Len)
 		var err Value = Iface{}
-		if r.chunked {
+		if r.chunked && r.nread < 3 {
+			// the first three reads deliver an arbitrary legal count (case split); later reads deliver all that is asked
 			k := Var(fmt.Sprintf("%s_c%d", r.name, r.nread), 64)
 			m.addInput(k)
 			m.sol.Assert(Cmp("bvule", BV(64, 1), k))
-			m.sol.Assert(Cmp("bvule", k, BV(64, 1<<20)))
-			n = Ite(Cmp("bvult", k, n), k, n)
+			m.sol.Assert(Cmp("bvule", k, n))
+			n = BV(64, m.conc(k, 4200))
 			if m.decide(And(Eq(n, avail), r.eofData)) {
 				err = m.opaqueErr("io.EOF")
 			}
